@@ -106,7 +106,10 @@ func (c *Collector) Report(v Violation) {
 	defer c.mu.Unlock()
 	c.count[v.Sig]++
 	old, ok := c.bySig[v.Sig]
-	if !ok || v.Rank < old.Rank {
+	if v.Case == nil && ok {
+		return // counted only: a report without a case never replaces a replayable one
+	}
+	if !ok || old.Case == nil || v.Rank < old.Rank {
 		vv := v
 		c.bySig[v.Sig] = &vv
 	}
